@@ -53,6 +53,8 @@ type sessCase struct {
 	Closing bool `json:"closing,omitempty"`
 	// C10 / C19 / C20: a client that has stopped reading (1 take-over, 2 stop, 3 keep-alive), see c20srv.go
 	Stalled int `json:"stalled,omitempty"`
+	// C20: that many rounds of "64 clean sessions end their connections at the moment Manager.Stop walks the session map"
+	StopRace int `json:"stoprace,omitempty"`
 }
 
 type sessStep struct {
@@ -330,6 +332,15 @@ func (p *sessProp) Run(ci interface{}) interface{} {
 	if c.Stalled > 0 {
 		so, msg := runStalled(c.Stalled - 1)
 		return &sessObs{Sta: so, Err: msg}
+	}
+	if c.StopRace > 0 {
+		// a panic in the broker ends the harness process: the check reports the crash with this case
+		for i := 0; i < c.StopRace; i++ {
+			if msg := stopRace(64); msg != "" {
+				return &sessObs{Sta: &stallObs{}, Err: fmt.Sprintf("round %d: %s", i, msg)}
+			}
+		}
+		return &sessObs{Sta: &stallObs{OK: true, Closed: true}}
 	}
 	r := &sessRun{c: c, obs: &sessObs{}, cur: map[int]*Auto{}, curCid: map[int]int{}, all: map[int]*Auto{}, seenPubs: map[int]int{}, seenClose: map[int]bool{}, ended: map[int]time.Time{}}
 	if err := r.startBroker(); err != nil {
@@ -716,6 +727,9 @@ func (p *sessProp) Coq(ci interface{}, oi interface{}) string {
 	if c.Stalled > 0 && o.Sta != nil {
 		lis = fmt.Sprintf("(Some (SStalled %d%%N %s %s))", c.Stalled-1, cBool(o.Sta.OK), cBool(o.Sta.Closed))
 	}
+	if c.StopRace > 0 && o.Sta != nil {
+		lis = fmt.Sprintf("(Some (SStalled 9%%N %s %s))", cBool(o.Sta.OK), cBool(o.Sta.Closed))
+	}
 	if c.Closing && o.Clo != nil {
 		lis = fmt.Sprintf("(Some (SClosing (mkClosing %s %s %d%%N)))", cBool(o.Clo.Early), cBool(o.Clo.Returned), o.Clo.UnAck)
 	}
@@ -732,6 +746,9 @@ func (p *sessProp) Class(ci interface{}, oi interface{}) (string, bool) {
 	}
 	if c.Stalled > 0 {
 		return fmt.Sprintf("stalled-client-%d", c.Stalled), true
+	}
+	if c.StopRace > 0 {
+		return "stop-vs-self-ending-sessions", true
 	}
 	timed, recon, wills := false, 0, false
 	for _, op := range c.Ops {
